@@ -135,7 +135,10 @@ func (r *run) writeRow(fam int, s seriesDef, slot int, jitter int64, fvs []field
 		// the real createdTime of the new memory database decides the tick id given to the model
 		ct, ok := r.e.createdOf(fam)
 		if !ok {
-			r.c.Fail("harness-created-time", "cannot read the created time of the new memory database")
+			// cannot tell (the clock ticked during every attempt): leave the claimed region
+			r.c.Note("cannot read the created time of the new memory database; oracle off for this case")
+			r.collided = true
+			ct = -int64(len(r.ticks) + 1)
 		}
 		id, seen := r.ticks[ct]
 		if !seen {
@@ -413,12 +416,20 @@ func runRandom(c *core.Ctx, idx int) {
 	nOps := 8 + rng.Intn(30)
 	// a "hot" region of slots so that duplicates and window effects are frequent
 	hot := rng.Intn(spf)
+	// two hot regions more than a window apart: writes flip between them, so windows are left,
+	// compacted and re-entered (a slot then lives in the compress buffer and in the window)
+	flip := rng.Intn(3) != 0
 	slotOf := func() int {
-		switch rng.Intn(10) {
-		case 0:
+		x := rng.Intn(20)
+		switch {
+		case x == 0:
 			return rng.Intn(spf)
-		case 1, 2:
+		case x < 4:
 			return (hot + rng.Intn(60)) % spf
+		case x < 10 && flip:
+			return (hot + 20 + rng.Intn(6)) % spf
+		case flip:
+			return (hot + rng.Intn(8)) % spf
 		default:
 			return (hot + rng.Intn(14)) % spf
 		}
